@@ -864,6 +864,8 @@ def judge(sc, R, gain_rng=None):
             bounds(cb, pre + '/func/cohbavg', 'cohbavg')
             if np.abs(cb - cb.T).max() > 1e-9:
                 bad(pre + '/func/cohbavg/not-symmetric', 'band-averaged coherence not symmetric', 'cohbavg')
+            if cb.ndim == 2 and np.abs(np.diag(cb) - 1).max() > 1e-9:     # "value 1 of each channel with itself", band-averaged too
+                bad(pre + '/func/cohbavg/self-not-1', 'band-averaged coherence of a channel with itself differs from 1 by %.3g' % np.abs(np.diag(cb) - 1).max(), 'cohbavg')
     if not isinstance(R['cybavg'], str):
         cb = np.asarray(R['cybavg'])
         if np.all(np.isfinite(np.abs(cb))):
